@@ -1,5 +1,6 @@
 import SFV.Proofs.HwCompile
 import SFV.Proofs.HwMerge
+import SFV.Proofs.HwTemplate
 
 /-!
 # C12 — hardware compilation conforms to the device and preserves the experiment
@@ -101,6 +102,45 @@ theorem assert_modes_monotone :
 
 example : assertModesDict [(.pnr, 2), (.homodyne, 1), (.pnr, 1)] 3 1 0 = none ∧
     assertModesDict [(.pnr, 2), (.homodyne, 1), (.pnr, 1)] 2 1 0 = some .pnr := by decide +kernel
+
+/-! ## X-series template -/
+
+/- **template_conformance — full statement (NOT proved for all `N`; see the partial result and the test below).**
+For every `N`, every order `o` of the squeezers that is a permutation of `0 … N-1`, and every wire `w`:
+
+    onWire w (xCompiled N o) = onWire w (xLayout N)
+
+i.e. on every wire the circuit `Xunitary` / `Xcov` emit carries the same gates on the same modes in the same
+order as the device layout (equality of the circuit DAGs, which is what the layout matching decides).
+What is missing is the combinatorial core: the per-wire order of `compiledMZ N` (column sweeps of the even
+diagonals followed by the reversed row sweeps of the odd diagonals) equals that of `layoutMZ N` (layers).  -/
+
+/-- **template_conformance_partial.**  For every `N`: (1) every `MZgate` the symmetric decomposition emits acts
+on two adjacent modes inside its half, as every `MZgate` of the layout does; (2) every position of the layout's
+mesh — layer `l < N`, first mode `p`, `p + 1 < N`, `p ≡ l (mod 2)` — is produced by the decomposition, by the
+column sweep of the even diagonal `k = l + p` or the row sweep of the odd diagonal `k = 2N − 3 − l − p`;
+(3) the emitted circuit is squeezers ⧺ mesh and one `Rgate` per mode on the signal half ⧺ the same shifted by
+`N` ⧺ one `MeasureFock` on all `2N` modes.  Missing for the full statement: multiplicity and per-wire order
+of the mesh (tested by evaluation below for `N ≤ 7` and by the harness against the real decomposition). -/
+theorem template_conformance_partial (N : Nat) :
+    (∀ p ∈ compiledMZ N, p + 1 < N) ∧ (∀ p ∈ layoutMZ N, p + 1 < N) ∧
+    (∀ l p, l < N → p + 1 < N → p % 2 = l % 2 →
+      (∃ k, k < N - 1 ∧ k % 2 = 0 ∧ p ∈ colSweep k ∧ k = l + p) ∨
+      (∃ k, k < N - 1 ∧ k % 2 = 1 ∧ p ∈ rowSweep N k ∧ k + l + p + 3 = 2 * N)) ∧
+    (∀ o, xCompiled N o = o.map (s2Sk N)
+      ++ ((compiledMZ N).map (mzSk 0) ++ (List.range N).map (fun i => rSk (i + 0)))
+      ++ ((compiledMZ N).map (mzSk N) ++ (List.range N).map (fun i => rSk (i + N))) ++ [measSk (2 * N)]) :=
+  ⟨fun _ h => compiledMZ_adjacent h, fun _ h => layoutMZ_adjacent h,
+    fun _ _ hl hp hpar => compiledMZ_covers hl hp hpar, xCompiled_parts N⟩
+
+example : compiledMZ 5 = [0, 2, 1, 0, 3, 2, 1, 0, 3, 2] ∧ layoutMZ 5 = [0, 2, 1, 3, 0, 2, 1, 3, 0, 2] := by
+  decide +kernel
+
+/-- TEST BY EVALUATION (not a theorem about all sizes): the full conformance statement for `N ≤ 7`, every
+wire, with the squeezers in reversed order -/
+example : ∀ N ∈ List.range 8, ∀ w ∈ List.range (2 * N + 1),
+    onWire w (xCompiled N (List.range N).reverse) = onWire w (xLayout N) := by
+  decide +kernel
 
 /-! ## Xunitary: merging repeated two-mode squeezers -/
 
